@@ -107,7 +107,7 @@ class Gen:
       cd.sig('r', 'Wire', 8); f = f'f{cd.nblk}'; cd.nblk += 1
       cd.blk(f, 'ff', [f's.r <<= {expr(prev)}'], [prev], [nm('r')]); extra.append(('s.r', nm('r'))); cd.features.add('leaf-ff')
     use = [e for e in extra if rng.random() < 0.8]
-    rhs = ' + '.join([expr(prev)] + [e for e, _ in use])
+    rhs = ' + '.join([expr(prev)] + [e for e, _ in use]) + ' + p'      # p: only ever set through the parameter tree (set_param)
     reads = [prev] + [n for _, n in use]
     if rng.random() < 0.25:
       f = f'f{cd.nblk}'; cd.nblk += 1
@@ -382,6 +382,7 @@ def dump_extra(top):
   for c in top.get_all_components():
     for x in c.get_child_components(): rows.add(('child', repr(c), repr(x)))
     rows.add(('level', repr(c), c.get_component_level()))
+    rows.add(('params', repr(c), repr(tuple(c._dsl.args)), repr(sorted(c._dsl.kwargs.items()))))   # what construct() was called with
   return rows
 
 # ------------------------------------------------------------------ residue scan
@@ -447,7 +448,7 @@ def drive(top, seed, pure, cycles=20):
 
 VIEW_OF = {'comp': 'all_components', 'sig': 'signals', 'meth': 'all_method_ports', 'blk': 'update_blocks', 'rd': 'upblk_reads', 'wr': 'upblk_writes',
            'call': 'upblk_calls', 'UU': 'U_U_constraints', 'RDU': 'RD_U_constraints', 'WRU': 'WR_U_constraints', 'M': 'M_constraints', 'adj': 'adjacency',
-           'net': 'value_nets', 'mnet': 'method_nets', 'obj': 'all_named_objects', 'sigset': 'dsl_all_signals', 'mportset': 'dsl_all_method_ports', 'child': 'child_components', 'level': 'component_level'}
+           'net': 'value_nets', 'mnet': 'method_nets', 'obj': 'all_named_objects', 'sigset': 'dsl_all_signals', 'mportset': 'dsl_all_method_ports', 'child': 'child_components', 'level': 'component_level', 'params': 'construct_parameters'}
 
 def row_owner(row):
   v = row[0]
@@ -618,6 +619,22 @@ def table_after(history, mod):
     c = getattr(mod, cname)
     table[slot] = c if mode == 'cls' else (lambda c_, k_: (lambda *a, **kw: c_(k_)))(c, k)
   return table
+
+def gen_params(rng, history, H0, rs):
+  """set_param calls made on the top before elaboration: exact (indexed) paths to slots that get replaced, to components
+  BELOW such a slot (in the old or in the new subtree), to arbitrary components, and wildcard paths"""
+  cands = []
+  for (slot, mode, cname, k), (c, h) in zip(history, rs):
+    cands.append(c)
+    cands += [c + n for n, _ in h if n]                  # descendants of the new subtree
+  cands += [n for n, _ in H0 if n]
+  out = []
+  for _ in range(rng.randrange(1, 4)):
+    tgt = list(rng.choice(cands[:max(1, len(cands) // 2)] if rng.random() < 0.6 else cands))
+    if rng.random() < 0.3:
+      i = rng.randrange(len(tgt)); tgt[i] = re.match(r'[a-z]+[0-9]*', tgt[i]).group(0) + '*'   # wildcard (a regex for pymtl3): l0[1] -> l0*, a1 -> a1*; only matches slot names
+    out.append(('top.' + '.'.join(tgt) + '.construct', {'p': rng.randrange(1, 9)}))
+  return out
 
 def slot_name(s): return tuple(s[2:].split('.'))      # 's.p.l[0]' -> ('p', 'l[0]')
 
@@ -791,18 +808,13 @@ def run(ctx):
   cases, meta = [], []
   for tag, topc, hist, params in DIRECTED:
     run_history(ctx, tag, DIRECTED_SRC + f'\nTop = {topc}\n', hist, params, cases, meta, feats=('directed',))
-  N = 120 if quick else 1200
+  N = 100 if quick else 1200
   for j in range(N):
     while True:
       g = Gen(random.Random(rng.randrange(1 << 30)), f'R{j}').build()
       history, (H0, rs) = random_history(ctx, g, j)
       if history: break
-    params = []
-    if rng.random() < 0.15:
-      # a parameter pushed down by name to one of the slots of the base design (also exercised: slots that get replaced)
-      comps = [n for n, _ in H0 if n]
-      tgt = slot_name(history[0][0]) if rng.random() < 0.5 else rng.choice(comps)
-      params = [('top.' + '.'.join(tgt) + '.construct', {'p': rng.randrange(1, 9)})]
+    params = gen_params(rng, history, H0, rs) if rng.random() < 0.4 else []
     try:
       run_history(ctx, f'R{j}', g.source(), history, params, cases, meta, expect_hier=(H0, rs), feats=g.features | set().union(*[c.features for c in g.classes]) | ({'set_param'} if params else set()))
     except Exception as e:
